@@ -107,6 +107,7 @@ type Sched struct {
 	MaxBlocked   int
 	SpinSwitches int
 	StepCap      int64
+	opStart      int64 // step count at the last operation boundary (the cap applies per operation when boundaries are marked)
 	LockAcq      int // total modelled lock acquisitions in this run
 
 	// verdict
@@ -227,6 +228,7 @@ func (s *Sched) BeginRun(n int, cfg StratCfg) {
 	s.cur = -1
 	s.nlocks = 0
 	s.Steps = 0
+	s.opStart = 0
 	s.StepsByClass = [3]int64{}
 	s.Switches = 0
 	s.SwByClass = [3]int{}
@@ -415,7 +417,7 @@ func Yield(site int) {
 	if cls == ClassS {
 		s.IHash = (s.IHash ^ uint64(self*65536+site)) * 1099511628211
 	}
-	if s.Steps > s.StepCap {
+	if s.Steps-s.opStart > s.StepCap {
 		s.finish(self, VHang, site)
 	}
 	if loop {
@@ -821,6 +823,13 @@ func RunTasks(fns []func(), toStr func(any) string) (int, []TaskPanic) {
 	}
 	return VOK, out
 }
+
+// OpBoundary marks the start of a new operation of a single-task history: the step bound then
+// applies to each operation separately (a history of many legitimately expensive calls must not
+// add up to a "hang").
+//
+//go:norace
+func OpBoundary() { S.opStart = S.Steps }
 
 // StartCounting / StopCounting bracket a serial measuring run on the calling goroutine.
 func StartCounting() {
